@@ -161,6 +161,8 @@ structure Agent where
   selStart : Nat := 0
   nominatedPair : Option Nat := none  -- pair id (controlling selector)
   lastNomination : Option Nat := none -- controlled selector
+  /-- controlling selector: greatest renomination value whose success response was processed (`answeredNomination`) -/
+  answeredNomination : Option Nat := none
   -- connectivityChecks goroutine
   lastSeen : ConnState := .unknown
   checkingStart : Nat := 0
@@ -575,23 +577,33 @@ def Agent.handleSuccess (a : Agent) (now : Nat) (m : Msg) (l r : Cand) (src : Na
         let (a, o) :=
           if a.controlling then
             if pd.useCand then
-              if pd.nom.isSome then a.select p.id
-              else if a.selected.isNone then a.select p.id else (a, [])
+              match pd.nom with
+              | some v =>
+                -- the controlled agent keeps the greatest value: a response to a superseded renomination is ignored
+                let superseded := match a.answeredNomination with | none => false | some w => v ≤ w
+                if superseded then (a, [])
+                else ({ a with answeredNomination := some v }).select p.id
+              | none => if a.selected.isNone then a.select p.id else (a, [])
             else (a, [])
           else
             if p.nomOnSuccess then
-              match p.deferredNom with
-              | some v =>
-                -- deferred renomination: ignored if a greater value has been accepted since, else it wins
-                let superseded := match a.lastNomination with | none => true | some last => v < last
-                if superseded then (a, [])
-                else if a.selected != some p.id then a.select p.id else (a, [])
-              | none =>
-                match a.selected.bind a.pairById with
-                | none => a.select p.id
-                | some sp =>
-                  if sp.id != p.id && (!needsPrioCheck a.cfg || a.pairPrio sp ≤ a.pairPrio p) then a.select p.id
-                  else (a, [])
+              let (a, o) : Agent × List Out :=
+                match p.deferredNom with
+                | some v =>
+                  -- deferred renomination: ignored if a greater value has been accepted since, else it wins
+                  let superseded := match a.lastNomination with | none => true | some last => v < last
+                  if superseded then (a, [])
+                  else if a.selected != some p.id then a.select p.id else (a, [])
+                | none =>
+                  match a.selected.bind a.pairById with
+                  | none => a.select p.id
+                  | some sp =>
+                    -- a value has been accepted since: a deferred nomination without a value does not move the selection
+                    if sp.id != p.id && a.lastNomination.isSome then (a, [])
+                    else if sp.id != p.id && (!needsPrioCheck a.cfg || a.pairPrio sp ≤ a.pairPrio p) then a.select p.id
+                    else (a, [])
+              -- the deferred nomination has been acted upon: a later response on this pair must not replay it
+              (a.modPair p.id fun p => { p with nomOnSuccess := false, deferredNom := none }, o)
             else (a, [])
         (a.modPair p.id fun p => { p with respRecv := p.respRecv + 1 }, o)
 
@@ -650,9 +662,13 @@ def Agent.cldHandleRequest (a : Agent) (now : Nat) (m : Msg) (l r : Cand) : Agen
               | some sp =>
                 if sp.id == id then false
                 else if m.nom.isSome then true
+                else if a.lastNomination.isSome then false
                 else !needsPrioCheck a.cfg || a.pairPrio sp < a.pairPrio p
             if sw then a.select id else (a, [])
-          else (a.modPair id fun p => { p with nomOnSuccess := true, deferredNom := m.nom }, [])
+          -- a nomination without a value does not replace the deferred value of an accepted renomination
+          else if m.nom.isSome || p.deferredNom.isNone then
+            (a.modPair id fun p => { p with nomOnSuccess := true, deferredNom := m.nom }, [])
+          else (a, [])
       else (a, [])
     let (a, o1) := a.sendSuccess now m l r
     let (a, o2) :=
@@ -668,7 +684,7 @@ def roleConflictKeeps (controlling : Bool) (own theirs : Nat) : Bool :=
 
 /-- `setSelector()`: a fresh selector of the current role. -/
 def Agent.resetSelector (a : Agent) (now : Nat) : Agent :=
-  { a with selStart := now, nominatedPair := none, lastNomination := none }
+  { a with selStart := now, nominatedPair := none, lastNomination := none, answeredNomination := none }
 
 def prflxPriority (comp : Nat) : Nat := IceModel.Prio.priority 110 65535 comp
 
